@@ -99,6 +99,7 @@ pub fn run(prop: Prop, s: &Scn) -> RunOut {
             c.insert("probe_same_line_diagnostics".to_owned(), b(p.same_line_diags));
             c.insert("probe_treeless_multi_diag".to_owned(), b(p.treeless_multi_diag));
             c.insert("probe_thread_reuse".to_owned(), b(p.thread_reuse));
+            c.insert("probe_concurrent_validate".to_owned(), b(p.concurrent_validate));
             c.insert("probe_thread_reuse_after_64_contents".to_owned(), b(p.thread_reuse_after_64_contents));
             c.insert("files".to_owned(), p.files as u64);
             c.insert("diagnostics_in_canonical_execution".to_owned(), p.diagnostics as u64);
